@@ -580,6 +580,7 @@ class OutputSchemaBuilder(
             aliaser, enum_aliaser, enum_schemas, default_conversion, id_type, is_id
         )
         self.union_name_factory = union_name_factory
+        self._unions: Dict[Any, graphql.GraphQLUnionType] = {}
         self.input_builder = InputSchemaBuilder(
             self.aliaser,
             self.enum_aliaser,
@@ -807,7 +808,13 @@ class OutputSchemaBuilder(
             types = [factory.raw_type for factory in results]
             if name is None:
                 name = self.union_name_factory([t.name for t in types])
-            return graphql.GraphQLUnionType(name, types, description=description)
+            # the name is only known here: reuse the type when the same union is met again
+            key = (name, tuple(t.name for t in types), description)
+            if key not in self._unions:
+                self._unions[key] = graphql.GraphQLUnionType(
+                    name, types, description=description
+                )
+            return self._unions[key]
 
         return TypeFactory(factory)
 
